@@ -84,6 +84,10 @@ def scenarios():
     # the derived output name is the input font itself, reached through a symbolic link: f.ttf -> f_gr.ttf
     add("derived_output_is_the_linked_input", {"sameInOut": 1}, out=None, fontname_link=("f.ttf", "f_gr.ttf"))
     add("semantic_error_dbg", {"preCompileOk": 0, "dbgFiles": 1, "dbgXml": 1}, gdl=SEMANTIC, opts=["-D"])
+    # debug files next to an output font whose path has more dots than the one before the extension
+    add("ok_dbgxml_dotted_name", {"dbgXml": 1}, opts=["-d"], out="pig.v2.ttf")
+    add("ok_dbgxml_dot_slash", {"dbgXml": 1}, opts=["-d"], out="./dot.ttf")
+    add("ok_dbgall_dotted_dir", {"dbgFiles": 1, "dbgXml": 1}, opts=["-D"], out="adir/build.v2/out.ttf")
     # an error found only after the state machines have been generated (more than 65535 states): no font, destination untouched
     add("fsm_too_large", {"fsmOk": 0}, gdl=big_fsm_gdl())
     add("fsm_too_large_dbgxml", {"fsmOk": 0, "dbgXml": 1}, gdl=big_fsm_gdl(), opts=["-d"])
@@ -128,7 +132,7 @@ def run_scenario(build, work, name, setup, pre_existing_out=None):
     d = os.path.join(work, name)
     shutil.rmtree(d, ignore_errors=True)
     os.makedirs(d)
-    os.makedirs(os.path.join(d, "adir"))
+    os.makedirs(os.path.join(d, "adir", "build.v2"))
     font, _g, _c = ttf.simple_font(20)
     fontname = setup.get("fontname", "in.ttf")
     if "fontname" not in setup:
